@@ -7,3 +7,8 @@ open EpgVerif.Props.C02
 #print axioms undeclared_variable
 #print axioms coeff_linear
 #print axioms EpgVerif.Ex.hasDerivAt_eval
+#print axioms EpgVerif.Ex.hasDerivAt_eval_total
+#print axioms mat_step
+#print axioms scal_step
+#print axioms T_partial_exact
+#print axioms E_partial_exact
